@@ -20,6 +20,20 @@ def handle (j : Json) : Json :=
     match lookup Generated.registry op with
     | .ok d => Json.mkObj [("model", Json.mkObj [("status", "ok"), ("str", d.str)])]
     | .error e => Json.mkObj [("model", errJson e)]
+  | "bcast" =>
+    match (getArr j "inputs").toList.mapM parseTensor with
+    | some [some A, some B] =>
+      let a := runBcast op A B
+      Json.mkObj [("model", a.model.json), ("spec", a.spec.json),
+        ("guard", Json.arr (a.guard.map Json.str).toArray), ("tags", Json.arr (a.tags.map Json.str).toArray)]
+    | _ => Json.mkObj [("model", Json.mkObj [("status", "inexact")])]
+  | "op" =>
+    match (getArr j "inputs").toList.mapM parseTensor with
+    | none => Json.mkObj [("model", Json.mkObj [("status", "inexact")])]
+    | some ins =>
+      let a := runOp op (getObj j "attrs") ins
+      Json.mkObj [("model", a.model.json), ("spec", a.spec.json),
+        ("guard", Json.arr (a.guard.map Json.str).toArray), ("tags", Json.arr (a.tags.map Json.str).toArray)]
   | _ => Json.mkObj [("model", Json.mkObj [("status", "unmodelled")])]
 
 partial def loop (hin : IO.FS.Stream) (hout : IO.FS.Stream) : IO Unit := do
